@@ -24,7 +24,25 @@ class VReactor(Clock):
         else:
             self._when_running.append((f, a, kw))
 
+    def _on_signal(self, signum, frame):
+        self.stop()
+
+    def _install_signal_handlers(self):
+        """What the real reactor does in startRunning(): SIGINT only when Python's default handler is in place,
+        SIGTERM always, and a SIGCHLD handler for process reaping (posix)."""
+        import signal
+        import threading
+        if threading.current_thread() is not threading.main_thread():
+            return
+        if signal.getsignal(signal.SIGINT) == signal.default_int_handler:
+            signal.signal(signal.SIGINT, self._on_signal)
+        signal.signal(signal.SIGTERM, self._on_signal)
+        if hasattr(signal, "SIGCHLD"):
+            signal.signal(signal.SIGCHLD, self._on_signal)
+
     def run(self, installSignalHandlers=True):
+        if installSignalHandlers:
+            self._install_signal_handlers()
         self.running = True
         hooks, self._when_running = self._when_running, []
         for f, a, kw in hooks:
